@@ -667,3 +667,11 @@ def c02k(ctx):
     for o in sub.obs:
         (ctx.ok if o.status == 'ok' else ctx.bad)('%s:%s' % (o.rule, o.construct), o.msg, o.where)
     ctx.stats['functions'] |= sub.stats['functions']
+
+
+@rule('C02.l', floor=3)
+def c02l(ctx):
+    """shared rule C04.l, re-evaluated for this property: the tile served for an address is cut from the place of the meta tile
+    picture that belongs to it -- the bbox of a meta tile and its cutting pattern describe the same (unclamped) block"""
+    from ..engine import share
+    share(ctx, 'C04', {'C04.l'})
